@@ -48,6 +48,13 @@ MISSED = {
     "C17_e": "every add_step used a new stage object -> 'readd': the same stage object at several positions, then remove_step on a later occurrence",
     "C19_e": "gradient batches never contained an all-zero item -> zero-item batches for all power/amplitude/PAPR constraints (gradients must stay finite)",
     "C20_e": "inputs were always contiguous tensors -> the same values as a transposed (B1,B2,n) view and as a strided slice of a wider buffer",
+    "C07_f": "the SNR metric was only compared on 1-D signals -> batched 2-D/3-D/4-D inputs whose elements and rows have different powers (one value per batch element)",
+    "C08_f": "targets stopped at 1e3, so gains above 60 dB were rare -> targets 1e4 and 1e6; also added: non-contiguous (permuted-view) inputs must be constrained like the contiguous tensor",
+    "C09_f": "every code of C09 ran in a process of its own -> cross-instance unit: pairs of different codes of one class and size with all their decoders in one process, both orders",
+    "C12_f": "inputs were contiguous tensors -> the exact and the statistical cells also run on permuted (transposed) views",
+    "C13_f": "independence across blocks was tested on the complex gains only (uncorrelated even when a real factor is shared) -> Pearson correlation of log|h|^2 across adjacent blocks and items",
+    "C15_f": "MinDistanceThresholder only with its default reference points -> symmetric custom reference points listed in other orders",
+    "C20_f": "the multi-block layout had two blocks per row -> 2 rows x 67 blocks against the 134 blocks as a plain batch",
 }
 for tag in sys.argv[1:]:
     pid = tag.split("_")[0]
